@@ -337,8 +337,10 @@ class Engine:
         if fr.depth + 1 > self.max_depth:
             self.depth_cut.append((callee.name, site)); return
         # recursion cut: same function already on the chain with the same lockset
-        if fr.chain.count(callee.name) >= 1 and callee.name == fr.fn.name:
-            if fr.chain.count(callee.name) >= 1: return
+        if callee.name in fr.chain or callee.name == fr.fn.name and callee.name in fr.chain:
+            return      # (indirect) recursion: the callee is already being analysed with this lockset further up the chain
+        if callee.name == fr.fn.name and fr.chain.count(callee.name) >= 1:
+            return
         sub = Frame(callee, env, this_path, list(fr.chain) + [fr.fn.name], fr.depth + 1, ctor_obj=ctor_obj)
         self._run(sub, frozenset(L), root)
 
